@@ -686,3 +686,208 @@ def summarize_online_discrete(cls_info, ix):
         return r, o.partial
     except Unknown as e:
         return ('unknown', str(e)), None
+
+
+# --------------------------------------------------------------------------------------------- dense time
+class DenseLoop(object):
+    """Summarise a dense-time per-sample loop: the *value* component of the emitted samples as a term over the value
+    of the current input sample and one carried state.  Compression (`if out != prev ...`) and the time component are
+    not part of the summary -- the property leaves merging of equal samples unconstrained."""
+
+    def __init__(self, func_node, operand_names=None, pair_of_values=False):
+        self.f = func_node
+        self.partial = None
+        self.operands = operand_names
+        self.table_default = None
+        self.pair_of_values = pair_of_values
+
+    def run(self):
+        env = {}
+        body = [s for s in self.f.body if not (isinstance(s, ast.Expr) and isinstance(s.value, ast.Constant))]
+        if body and isinstance(body[0], ast.Raise):
+            return ('reject', '?')
+        lists = {}
+        loop = None
+        for st in body:
+            if isinstance(st, ast.Assign) and len(st.targets) == 1:
+                t = st.targets[0]
+                c = const_of(st.value)
+                key = t.id if isinstance(t, ast.Name) else ('self.' + t.attr if isinstance(t, ast.Attribute) and isinstance(t.value, ast.Name) and t.value.id == 'self' else None)
+                if key and c is not None:
+                    env[key] = c
+                    continue
+                if isinstance(t, ast.Name) and isinstance(st.value, ast.List) and not st.value.elts:
+                    lists[t.id] = True
+                    continue
+                if isinstance(t, ast.Name):
+                    k = visit_child_index(st.value)
+                    if k is not None:
+                        env[t.id] = ('SIG', k)
+                        continue
+                    if isinstance(st.value, ast.Name) and env.get(st.value.id, (None,))[0] == 'SIG':
+                        env[t.id] = env[st.value.id]
+                        continue
+                    env[t.id] = ('OPAQUE', ast.unparse(st.value)[:40])
+                    continue
+                if isinstance(t, ast.Tuple):
+                    for e in t.elts:
+                        if isinstance(e, ast.Name):
+                            env[e.id] = ('OPAQUE', 'tuple')
+                    if self.pair_of_values and isinstance(t.elts[0], ast.Name):
+                        env[t.elts[0].id] = ('SPLIT',)
+                    continue
+            if isinstance(st, ast.For):
+                if loop is not None:
+                    raise Unknown('more than one loop')
+                loop = st
+                continue
+            if isinstance(st, ast.Return):
+                continue
+            if isinstance(st, ast.Expr):
+                continue
+            raise Unknown('statement %s' % ast.unparse(st)[:50])
+        if loop is None:
+            raise Unknown('no per-sample loop')
+        # iteration: for i in S / for i, s in enumerate(S) / reversed(list(enumerate(S)))
+        it = loop.iter
+        direction = 'fwd'
+        wraps = []
+        while isinstance(it, ast.Call) and isinstance(it.func, ast.Name) and it.func.id in ('reversed', 'list', 'enumerate') and it.args:
+            wraps.append(it.func.id)
+            it = it.args[0]
+        if 'reversed' in wraps:
+            direction = 'bwd'
+        if not isinstance(it, ast.Name):
+            raise Unknown('loop over %s' % ast.unparse(it)[:40])
+        params = [a.arg for a in self.f.args.args]
+        src = env.get(it.id)
+        if src is not None and src[0] == 'SIG':
+            operand = ('x', src[1], 0, None)
+        elif it.id in params:
+            operand = ('x', [p for p in params if p != 'self'].index(it.id), 0, None)
+        elif src is not None and src[0] == 'SPLIT':
+            operand = ('pairval', ('x', 0, 0, None), ('x', 1, 0, None))
+        elif src is not None and src[0] == 'OPAQUE' and self.operands is not None:
+            operand = self.operands
+        else:
+            raise Unknown('loop source %s' % it.id)
+        tgt = loop.target
+        if 'enumerate' in wraps:
+            if not (isinstance(tgt, ast.Tuple) and len(tgt.elts) == 2):
+                raise Unknown('enumerate target')
+            pairname = tgt.elts[1].id
+            idxname = tgt.elts[0].id
+        else:
+            pairname = tgt.id
+            idxname = None
+        loc = dict((k, v) for k, v in env.items() if isinstance(v, tuple) and v[0] == 'c')
+        loc[pairname] = ('PAIR', operand)
+        if idxname:
+            loc[idxname] = ('IDX',)
+        # carried state: constants assigned before the loop and reassigned inside it
+        assigned = set()
+        for s in ast.walk(loop):
+            if isinstance(s, ast.Assign):
+                for t in s.targets:
+                    if isinstance(t, ast.Name):
+                        assigned.add(t.id)
+                    elif isinstance(t, ast.Attribute) and isinstance(t.value, ast.Name) and t.value.id == 'self':
+                        assigned.add('self.' + t.attr)
+        carried = sorted(k for k in assigned if k in env and env[k][0] == 'c')
+        for k in carried:
+            loc[k] = ('stv', k)
+        out = {'v': None}
+        self._body(loop.body, loc, out, lists)
+        if out['v'] is None:
+            raise Unknown('loop emits no sample')
+        # drop carried variables that only serve compression (not read by the emitted value or by another state)
+        def reads(e, k):
+            return contains(e, lambda x: x == ('stv', k))
+        real = [k for k in carried if reads(out['v'], k) or any(reads(loc.get(j, ()), k) for j in carried if j != k and reads(out['v'], j))]
+        if not real:
+            if direction == 'bwd':
+                pass
+            return ('pointwise', out['v'])
+        if len(real) != 1:
+            raise Unknown('more than one carried state')
+        k = real[0]
+
+        def f(e):
+            return ('st',) if e == ('stv', k) else None
+        return canon(('scan', direction, env[k], subst(out['v'], f), subst(loc[k], f)))
+
+    def _body(self, stmts, loc, out, lists):
+        for s in stmts:
+            if isinstance(s, ast.Assign) and len(s.targets) == 1:
+                t = s.targets[0]
+                key = t.id if isinstance(t, ast.Name) else ('self.' + t.attr if isinstance(t, ast.Attribute) and isinstance(t.value, ast.Name) and t.value.id == 'self' else None)
+                if key is None:
+                    raise Unknown('loop assignment target')
+                try:
+                    loc[key] = Scalar(loc).ev(s.value)
+                except Unknown:
+                    if isinstance(s.value, (ast.List, ast.Tuple)):
+                        loc[key] = ('SAMPLE', s.value)
+                    else:
+                        raise
+            elif isinstance(s, ast.Expr) and isinstance(s.value, ast.Call) and isinstance(s.value.func, ast.Attribute) \
+                    and s.value.func.attr in ('append', 'insert') and isinstance(s.value.func.value, ast.Name):
+                a = s.value.args[-1]
+                if isinstance(a, ast.Name) and loc.get(a.id, (None,))[0] == 'SAMPLE':
+                    a = loc[a.id][1]
+                if isinstance(a, (ast.List, ast.Tuple)) and len(a.elts) == 2:
+                    v = Scalar(loc).ev(a.elts[1])
+                    if out['v'] is not None and out['v'] != v:
+                        raise Unknown('two different emitted values')
+                    out['v'] = v
+                else:
+                    raise Unknown('emitted sample is not a [time, value] pair')
+            elif isinstance(s, ast.Expr) and isinstance(s.value, ast.Call) and isinstance(s.value.func, ast.Attribute) and s.value.func.attr == 'pop':
+                continue  # compression of the output list
+            elif isinstance(s, ast.If):
+                keys = comparison_key(s.test)
+                if keys is not None:
+                    def run_branch(body, l2):
+                        for q in body:
+                            if isinstance(q, ast.Assign) and len(q.targets) == 1 and isinstance(q.targets[0], ast.Name):
+                                try:
+                                    l2[q.targets[0].id] = Scalar(l2).ev(q.value)
+                                except Unknown:
+                                    l2[q.targets[0].id] = ('opaque', ast.unparse(q.value)[:30])
+                            elif isinstance(q, ast.Raise):
+                                pass
+                            else:
+                                raise Unknown('statement in comparison arm')
+                    tabs, self.table_default = if_table(s, loc, run_branch)
+                    loc.update(tabs)
+                elif len(s.body) == 1 and isinstance(s.body[0], ast.Raise) and not s.orelse:
+                    self.partial = ast.unparse(s.test)
+                else:
+                    # compression guard: only emission / pop statements inside, no value assignment
+                    inner = list(s.body) + list(s.orelse)
+                    if all(isinstance(q, ast.Expr) for q in inner):
+                        self._body(inner, loc, out, lists)
+                    else:
+                        raise Unknown('conditional assignment in loop: %s' % ast.unparse(s.test)[:40])
+            else:
+                raise Unknown('loop statement %s' % ast.unparse(s)[:50])
+
+
+def summarize_dense(func_node, operands=None, pair_of_values=False):
+    try:
+        d = DenseLoop(func_node, operands, pair_of_values)
+        r = d.run()
+        return r, d.partial
+    except Unknown as e:
+        return ('unknown', str(e)), None
+
+
+def binary_function_term(func_node):
+    """``def f(a, b): return <expr>`` -> term over x0, x1"""
+    if len(func_node.args.args) == 2 and len(func_node.body) == 1 and isinstance(func_node.body[0], ast.Return):
+        a, b = [x.arg for x in func_node.args.args]
+        try:
+            return Scalar({a: ('x', 0, 0, None), b: ('x', 1, 0, None)}).ev(func_node.body[0].value)
+        except Unknown:
+            return None
+    return None
